@@ -84,9 +84,45 @@ N1_RE = re.compile(r'^(\s*)\((\w+), (\w+)\) = (.+);\s*$')
 N3_RE = re.compile(r'^(\s*)([\w.]+)\.clone_from\(&([\w.]+)\);\s*$')
 
 
+# N2: lambda lifting of the one closure that captures `&mut self` (Verus has no such closures).  The closure
+# `let NAME = &mut || -> R {` ... `};` becomes a nested fn `fn NAME(this: &mut Server, <captures>) -> R {` ... `}`
+# (line for line: `self.` -> `this.` inside it) and every call `NAME()` becomes `NAME(self, <captures>)`.
+# A wrong capture list does not type-check, which the runner reports as inconclusive (exit 2).
+N2_RULES = {
+    'server.rs': {
+        'name': 'initialize_write',
+        'open': re.compile(r'^(\s*)let initialize_write = &mut \|\| -> Result<\(\), Box<dyn Error>> \{\s*$'),
+        'params': 'this: &mut Server, options: &mut [TransferOption], to: &SocketAddr, file_path: &PathBuf',
+        'args': 'self, options, to, file_path',
+    },
+}
+
+
 def normalise(fname, text):
     out, notes = [], []
+    n2 = N2_RULES.get(fname)
+    n2_indent = None
     for n, line in enumerate(text.split('\n'), 1):
+        if n2:
+            m = n2['open'].match(line)
+            if m and n2_indent is None:
+                n2_indent = m.group(1)
+                new = '%sfn %s(%s) -> Result<(), Box<dyn Error>> {' % (n2_indent, n2['name'], n2['params'])
+                notes.append({'file': fname, 'line': n, 'rule': 'N2 lambda lifting (closure head)', 'from': line.strip(), 'to': new.strip()})
+                line = new
+            elif n2_indent is not None and n2_indent != 'done':
+                if line == n2_indent + '};':
+                    notes.append({'file': fname, 'line': n, 'rule': 'N2 lambda lifting (closure end)', 'from': '};', 'to': '}'})
+                    line = n2_indent + '}'
+                    n2_indent = 'done'
+                elif 'self.' in line or '&self' in line:
+                    new = re.sub(r'\bself\b', 'this', line)
+                    notes.append({'file': fname, 'line': n, 'rule': 'N2 lambda lifting (self -> this)', 'from': line.strip(), 'to': new.strip()})
+                    line = new
+            elif n2_indent == 'done' and (n2['name'] + '()') in line:
+                new = line.replace(n2['name'] + '()', '%s(%s)' % (n2['name'], n2['args']))
+                notes.append({'file': fname, 'line': n, 'rule': 'N2 lambda lifting (call)', 'from': line.strip(), 'to': new.strip()})
+                line = new
         m = N1_RE.match(line)
         if m and fname == 'packet.rs':
             ind, a, b, e = m.groups()
